@@ -107,9 +107,46 @@ def value(ds, t, depth=2):
     if c in '({':
         return tuple(value(ds, st, depth - 1) for st in rc.split_sig(t[1:-1]))
     if c == 'v':
-        s = single_type(ds, 0 if SIMPLE_VARIANTS[0] else max(0, depth - 1))
+        if SIMPLE_VARIANTS[0]:
+            # what txdbus can send through its inferring variant marshaller: basic types and
+            # NON-EMPTY containers of basic types (the inferred type comes from the first element)
+            s = variant_inner_sig(ds)
+            return V(s, value_nonempty(ds, s))
+        s = single_type(ds, max(0, depth - 1))
         return V(s, value(ds, s, depth - 1))
     raise ValueError(t)
+
+
+def variant_inner_sig(ds):
+    k = ds.weighted([6, 2, 1, 1])
+    if k == 0:
+        return ds.pick(BASIC)
+    if k == 1:
+        return 'a' + ds.pick(BASIC)
+    if k == 2:
+        return '(' + ds.pick(BASIC) + ds.pick(BASIC) + ')'
+    return 'a{' + ds.pick(KEYS) + ds.pick(BASIC) + '}'
+
+
+def value_nonempty(ds, t):
+    c = t[0]
+    if c == 'a':
+        et = t[1:]
+        n = 1 + ds.choose(3)
+        if et[0] == '{':
+            kt, vt = rc.split_sig(et[1:-1])
+            out, seen = [], set()
+            for _ in range(n):
+                k = value(ds, kt, 0)
+                if rc.canon(k) in seen:
+                    continue
+                seen.add(rc.canon(k))
+                out.append((k, value(ds, vt, 0)))
+            return out
+        return [value(ds, et, 0) for _ in range(n)]
+    if c == '(':
+        return tuple(value(ds, st, 0) for st in rc.split_sig(t[1:-1]))
+    return value(ds, t, 0)
 
 
 def body(ds, sig, depth=2):
@@ -141,6 +178,14 @@ def to_variant(t, v):
         return tm.variantClassMap[c](v)
     if c in 'bsdi':
         return v
+    if c == 'a':
+        et = t[1:]
+        if et[0] == '{':
+            kt, vt = rc.split_sig(et[1:-1])
+            return {to_variant(kt, k): to_variant(vt, x) for k, x in v}
+        return [to_variant(et, x) for x in v]
+    if c == '(':
+        return tuple(to_variant(st, x) for st, x in zip(rc.split_sig(t[1:-1]), v))
     raise ValueError('no exact variant wrapper for %r' % t)
 
 
